@@ -164,7 +164,7 @@ theorem reloaded_signing_key_signs_same (hr : r ∈ Gen.curveTable) (hn : Nat.Pr
   subst hkk
   exact ⟨hkd, rfl, fun dg kk rand enc allow => by rw [hkd]⟩
 
-/-! ### unconditional on the 13 curves whose p and n carry primality certificates (`NamedPrimes.unconditionalCurves`) -/
+/-! ### unconditional on the curves (all 17 of the table) whose p and n carry primality certificates (`NamedPrimes.unconditionalCurves`) -/
 
 theorem reloaded_verifying_key_verifies_unconditional (r : Gen.CurveRow) (hr : r ∈ NamedPrimes.unconditionalCurves)
     (d : ℕ) (h1 : 1 ≤ d) (h2 : d < r.n) :
